@@ -1,0 +1,1 @@
+//! Hooks of group 'proto' for the /verif machinery.
